@@ -1232,14 +1232,24 @@ theorem absenceSet_rel (m : Model) (hab : NoIndAbs m) (a b : Live) (h : LRel m a
   · exact h.placed
   · exact h.wpComps
 
+/-- the live state of one loop iteration at the cost/perform boundary (`l4` in `stepBody`) -/
+def preLive (m : Model) (lg : Logs) (rule : TaskRule) (τ : Nat) (wk : Bool) (l : Live) : Live :=
+  compCheck m (chkWorking m
+    (if wk then allocate m lg rule (absenceSet m τ wk l) else absenceSet m τ wk l))
+
 /-- the live part of one loop iteration -/
 def stepLive (m : Model) (lg : Logs) (rule : TaskRule) (af : Bool) (τ : Nat) (wk : Bool) (l : Live) : Live :=
-  perform m wk af (compCheck m (chkWorking m
-    (if wk then allocate m lg rule (absenceSet m τ wk l) else absenceSet m τ wk l)))
+  perform m wk af (preLive m lg rule τ wk l)
 
 theorem stepBody_live_eq (m : Model) (p : Params) (s : St) :
     (stepBody m p s).live =
       stepLive m s.logs p.rule p.autoFlag s.time (!(p.absence.contains s.time)) s.live := rfl
+
+theorem stepBody_logs_eq (m : Model) (p : Params) (s : St) :
+    (stepBody m p s).logs =
+      addRow m (!(p.absence.contains s.time))
+        (preLive m s.logs p.rule s.time (!(p.absence.contains s.time)) s.live)
+        (stepBody m p s).live s.logs := rfl
 
 theorem allocate_tstate (m : Model) (lg : Logs) (rule : TaskRule) (l : Live) :
     (allocate m lg rule l).tstate = l.tstate :=
@@ -1248,11 +1258,11 @@ theorem allocate_tstate (m : Model) (lg : Logs) (rule : TaskRule) (l : Live) :
 /-- **a working step, live states**: from related states (B's resource holders all WORKING),
 the iteration of run A gives the state the iteration of run B gives, with A's PERT fields
 (which an iteration does not touch) -/
-theorem stepLive_working (m : Model) (hab : NoIndAbs m) (hc : CompNoAuto m) (rule : TaskRule) (af : Bool)
+theorem preLive_working (m : Model) (hab : NoIndAbs m) (hc : CompNoAuto m) (rule : TaskRule)
     (a b : Live) (lgA lgB : Logs) (τA τB : Nat) (h : LRel m a b) (hw : HoldWorking b)
     (hle : ∀ x y, x < m.nT → y < m.nT → taskLe m (setP a b) lgA rule x y = taskLe m b lgB rule x y) :
-    stepLive m lgA rule af τA true a = setP a (stepLive m lgB rule af τB true b) := by
-  unfold stepLive
+    preLive m lgA rule τA true a = setP a (preLive m lgB rule τB true b) := by
+  unfold preLive
   simp only [if_true]
   rw [absenceSet_rel m hab a b h τA τB,
     allocate_over m hc lgB lgA rule a a.tstate (absenceSet m τB true b) h.ts hle]
@@ -1278,6 +1288,14 @@ theorem stepLive_working (m : Model) (hab : NoIndAbs m) (hc : CompNoAuto m) (rul
         have := hw t (Or.inr hn)
         rw [hb] at this; cases this
 
+theorem stepLive_working (m : Model) (hab : NoIndAbs m) (hc : CompNoAuto m) (rule : TaskRule) (af : Bool)
+    (a b : Live) (lgA lgB : Logs) (τA τB : Nat) (h : LRel m a b) (hw : HoldWorking b)
+    (hle : ∀ x y, x < m.nT → y < m.nT → taskLe m (setP a b) lgA rule x y = taskLe m b lgB rule x y) :
+    stepLive m lgA rule af τA true a = setP a (stepLive m lgB rule af τB true b) := by
+  unfold stepLive
+  rw [preLive_working m hab hc rule a b lgA lgB τA τB h hw hle]
+  rfl
+
 /-- the `__update` block after a working step -/
 theorem update_rel_setP (m : Model) (q z : Live) (τ τ' : Nat) :
     LRel m (update m τ (setP q z)) (update m τ' z) := by
@@ -1287,6 +1305,148 @@ theorem update_rel_setP (m : Model) (q z : Live) (τ τ' : Nat) :
 /-- the rows of a working step are the same -/
 theorem addRow_setP (m : Model) (wk : Bool) (q l4 l5 : Live) (g : Logs) :
     addRow m wk (setP q l4) (setP q l5) g = addRow m wk l4 l5 g := rfl
+
+/-! ### an absence step of run A (these lemmas depend on `check_state(WORKING)` running at
+project absence steps) -/
+
+/-- the task states after `check_state(WORKING)` at an absence step: every READY component-free
+automatic task has been started -/
+def startAuto (m : Model) (ts : Nat → TS) : Nat → TS :=
+  fun t => if t < m.nT ∧ ts t = .ready ∧ freeAuto m t = true then .working else ts t
+
+/-- automatic tasks have no component -/
+def AutoFree (m : Model) : Prop := ∀ t, t < m.nT → (m.task t).isAuto = true → (m.task t).comp = Option.none
+
+/-- starting a task whose resources (if any) are all ABSENCE, and that holds nothing if it is
+READY, changes nothing but its state -/
+theorem startOne_quiet (m : Model) (l : Live) (t : Nat)
+    (hR : l.tstate t = .ready → l.allocW t = [] ∧ l.allocF t = [])
+    (hWa : ∀ w ∈ l.allocW t, l.wstate w = .absence) (hFa : ∀ f ∈ l.allocF t, l.fstate f = .absence) :
+    startOne m l t = setT (if l.tstate t = .ready then upd l.tstate t .working else l.tstate) l := by
+  by_cases h1 : l.tstate t = .ready
+  · rw [if_pos h1]
+    exact startOne_empty m l t h1 (hR h1).1 (hR h1).2
+  · rw [if_neg h1, Alloc.startOne_eq, if_neg h1]
+    split
+    · apply live_ext <;> try rfl
+      · funext w
+        show (if w ∈ l.allocW t ∧ l.wstate w = .free then RS.working else l.wstate w) = l.wstate w
+        split
+        · rename_i hh
+          have := hWa w hh.1
+          rw [this] at hh; cases hh.2
+        · rfl
+      · funext f
+        show (if (m.task t).needFac = true ∧ l.allocW t ≠ [] ∧ f ∈ l.allocF t ∧ l.fstate f = .free
+          then RS.working else l.fstate f) = l.fstate f
+        split
+        · rename_i hh
+          have := hFa f hh.2.2.1
+          rw [this] at hh; cases hh.2.2.2
+        · rfl
+    · rfl
+
+/-- the fold of `check_state(WORKING)` over any list of tasks changes only task states, on a
+state whose allocated resources are all ABSENCE and whose READY tasks hold nothing -/
+theorem foldl_startOne_quiet (m : Model) (x : Live)
+    (hR : ∀ t, x.tstate t = .ready → x.allocW t = [] ∧ x.allocF t = [])
+    (hWa : ∀ t, ∀ w ∈ x.allocW t, x.wstate w = .absence)
+    (hFa : ∀ t, ∀ f ∈ x.allocF t, x.fstate f = .absence) (ts : List Nat) :
+    ts.foldl (startOne m) x = setT (ts.foldl (startOne m) x).tstate x := by
+  have key : ∀ (acc : Live), (acc = setT acc.tstate x ∧ ∀ t, acc.tstate t = .ready → x.tstate t = .ready) →
+      ts.foldl (startOne m) acc = setT (ts.foldl (startOne m) acc).tstate x := by
+    induction ts with
+    | nil => intro acc h; exact h.1
+    | cons t ts ih =>
+      intro acc ⟨h1, h2⟩
+      rw [List.foldl_cons]
+      apply ih
+      have hq := startOne_quiet m acc t
+        (fun hr => by rw [h1]; exact hR t (h2 t hr))
+        (fun w hw => by rw [h1] at hw ⊢; exact hWa t w hw)
+        (fun f hf => by rw [h1] at hf ⊢; exact hFa t f hf)
+      rw [hq]
+      constructor
+      · conv => lhs; rw [h1]
+        rfl
+      · intro t' ht'
+        apply h2
+        have ht'' : (if acc.tstate t = .ready then upd acc.tstate t .working else acc.tstate) t' = .ready := ht'
+        split at ht''
+        · rw [upd_apply] at ht''
+          split at ht''
+          · cases ht''
+          · exact ht''
+        · exact ht''
+  exact key x ⟨rfl, fun _ h => h⟩
+
+theorem foldl_startOne_tstate_notin (m : Model) (ts : List Nat) (l : Live) (t : Nat) (h : t ∉ ts) :
+    (ts.foldl (startOne m) l).tstate t = l.tstate t := by
+  induction ts generalizing l with
+  | nil => rfl
+  | cons x xs ih =>
+    rw [List.foldl_cons, ih _ (fun hx => h (List.mem_cons_of_mem _ hx)),
+      startOne_tstate_ne m l x t (fun e => h (e ▸ List.mem_cons_self ..))]
+
+/-- the task states after `check_state(WORKING)` on a state whose READY tasks hold nothing -/
+theorem chkWorking_tstate_quiet (m : Model) (haf : AutoFree m) (x : Live)
+    (hR : ∀ t, x.tstate t = .ready → x.allocW t = [] ∧ x.allocF t = []) :
+    (chkWorking m x).tstate = startAuto m x.tstate := by
+  funext t
+  unfold startAuto
+  rw [Alloc.chkWorking_eq]
+  split
+  · rename_i h
+    obtain ⟨hlt, hr, hf⟩ := h
+    apply (Alloc.foldl_startOne_tstate m _ x).2 t _ (Or.inl hr)
+    exact List.mem_filter.mpr ⟨List.mem_range.mpr hlt, workingTarget_freeAuto m x t hr hf⟩
+  · rename_i h
+    by_cases hin : t ∈ (List.range m.nT).filter (workingTarget m x)
+    · rcases (Alloc.foldl_startOne_tstate m _ x).1 t with e | ⟨hr, _⟩
+      · exact e
+      · exfalso
+        obtain ⟨h1, h2⟩ := List.mem_filter.mp hin
+        have hlt := List.mem_range.mp h1
+        apply h
+        refine ⟨hlt, hr, ?_⟩
+        unfold workingTarget at h2
+        have hW := (hR t hr).1
+        simp only [hr, hW, List.length_nil, gt_iff_lt, Nat.lt_irrefl, decide_false, Bool.and_false,
+          Bool.false_or, beq_self_eq_true, Bool.true_and, Bool.or_false, Bool.or_eq_true,
+          Bool.and_eq_true] at h2
+        rcases h2 with h2 | h2
+        · unfold freeAuto; simp [h2.1, h2.2]
+        · unfold freeAuto; simp [h2.1, haf t hlt h2.1]
+    · exact foldl_startOne_tstate_notin m _ x t hin
+
+theorem perform_off (m : Model) (l : Live) : perform m false false l = l := by
+  apply live_ext <;> try rfl
+  funext t
+  simp [perform]
+
+theorem compNext_congr_tasks (m : Model) (l l' : Live) (c : Nat)
+    (ht : ∀ t ∈ (m.comp c).tasks, l'.tstate t = l.tstate t) (hc : l'.cstate c = l.cstate c) :
+    compNext m l' c = compNext m l c := by
+  unfold compNext
+  have : (m.comp c).tasks.map l'.tstate = (m.comp c).tasks.map l.tstate := List.map_congr_left ht
+  simp only [this, hc]
+
+/-- `product.check_state` finds nothing to do on a state that differs from one of its fixpoints
+only outside the components' task lists -/
+theorem compCheck_quiet (m : Model) (a l' : Live) (hfix : compCheck m a = a)
+    (ht : ∀ c, ∀ t ∈ (m.comp c).tasks, l'.tstate t = a.tstate t) (hc : l'.cstate = a.cstate) :
+    compCheck m l' = l' := by
+  apply live_ext <;> try rfl
+  funext c
+  rw [Lifecycle.compCheck_cstate]
+  split
+  · rw [compNext_congr_tasks m a l' c (ht c) (by rw [hc]), hc]
+    have := Lifecycle.compCheck_cstate m a c
+    rw [hfix] at this
+    rename_i hlt
+    rw [if_pos hlt] at this
+    exact this.symm
+  · rfl
 
 end Removal
 end PDesy
